@@ -512,6 +512,43 @@ M('chain-walk-never-advances', 'fault', ['C15'], ['SA-TERM'],
   [(DR, "                last_part = last_part.data_continuation\n                index += 1\n", "                index += 1\n")], 'walk')
 
 
+# ---- round 4 of the seeded regressions
+M('dotdot-arguments-exchanged', 'fault', ['C01'], ['SA-ARGS.swap.pycdlib'],
+  [(PY, "        self._create_dotdot(self.pvd, rec, self.rock_ridge, False, self.xa,\n                            0o040555)", "        self._create_dotdot(self.pvd, rec, self.rock_ridge, self.xa, False,\n                            0o040555)")], 'is passed as parameter')
+M('twin-dotdot-arguments-by-keyword', 'twin', ['C01'], [],
+  [(PY, "        self._create_dotdot(self.pvd, rec, self.rock_ridge, False, self.xa,\n                            0o040555)", "        self._create_dotdot(self.pvd, rec, self.rock_ridge, relocated=False, xa=self.xa,\n                            file_mode=0o040555)")])
+M('dotdot-length-mirrored-from-insertion-point-only', 'fault', ['C01', 'C03'], ['SA-MIRROR.total'],
+  [(DR, "                self.children[1].data_length = self.data_length\n\n            for c in self.children:\n                if not c.is_dir():\n                    continue\n                if len(c.children) > 1:\n                    c.children[1].data_length = self.data_length\n\n        return overflowed", "                self.children[1].data_length = self.data_length\n\n            for c in self.children[index:]:\n                if not c.is_dir():\n                    continue\n                if len(c.children) > 1:\n                    c.children[1].data_length = self.data_length\n\n        return overflowed")], 'slice')
+M('rollback-filters-on-the-tuple', 'fault', ['C04', 'C14', 'C02', 'C07'], ['SA-IDENT.operands'],
+  [(PY, "                                                       if id(link[0]) != id(boot_catalog.initial_entry)]", "                                                       if id(link) != id(boot_catalog.initial_entry)]")], 'never the same object')
+M('rollback-restores-an-alias', 'fault', ['C14'], ['SA-ALIAS.restore'],
+  [(PY, "            boot_catalog = eltorito.EltoritoBootCatalog(br)\n", "            saved_links = boot_dirrecord.inode.linked_records\n            boot_catalog = eltorito.EltoritoBootCatalog(br)\n"),
+   (PY, "                boot_dirrecord.inode.linked_records = [link for link in boot_dirrecord.inode.linked_records\n                                                       if id(link[0]) != id(boot_catalog.initial_entry)]\n", "                boot_dirrecord.inode.linked_records = saved_links\n")], 'puts back the value')
+M('twin-rollback-restores-a-copy', 'twin', ['C14', 'C04', 'C02', 'C07', 'C11'], [],
+  [(PY, "            boot_catalog = eltorito.EltoritoBootCatalog(br)\n", "            saved_links = list(boot_dirrecord.inode.linked_records)\n            boot_catalog = eltorito.EltoritoBootCatalog(br)\n"),
+   (PY, "                boot_dirrecord.inode.linked_records = [link for link in boot_dirrecord.inode.linked_records\n                                                       if id(link[0]) != id(boot_catalog.initial_entry)]\n", "                boot_dirrecord.inode.linked_records = saved_links\n")])
+M('checksum-after-header-read-without-reseek', 'fault', ['C05', 'C11', 'C16'], ['SA-SEEK.consumer'],
+  [(PY, "                    self._seek_to_extent(entry_extent)\n                    if self._calculate_eltorito_boot_info_table_csum(self._cdfp, bi_table.orig_len) == bi_table.csum:", "                    if self._calculate_eltorito_boot_info_table_csum(self._cdfp, bi_table.orig_len) == bi_table.csum:")], 'current position')
+M('checksum-of-callers-file-object', 'fault', ['C11', 'C05', 'C16'], ['SA-SEEK.consumer'],
+  [(PY, "            with inode.InodeOpenData(child.inode, self.logical_block_size) as (data_fp, data_len):\n                bi_table.new(self.pvd, child.inode, length,\n                             self._calculate_eltorito_boot_info_table_csum(data_fp, data_len))\n            child.inode.add_boot_info_table(bi_table)", "            bi_table.new(self.pvd, child.inode, length,\n                         self._calculate_eltorito_boot_info_table_csum(fp, length))\n            child.inode.add_boot_info_table(bi_table)")], 'current position')
+M('hybrid-mbr-attached-after-the-mark', 'fault', ['C06', 'C12'], ['SA-RESHUFFLE.flag'],
+  [(PY, "        self.isohybrid_mbr = isohybrid_mbr\n\n        # The boot file address (and the EFI/Mac partitions) in the hybrid MBR\n        # are filled in when the extents are assigned.\n        self._finish_add(0, 0)\n", "        # The boot file address (and the EFI/Mac partitions) in the hybrid MBR\n        # are filled in when the extents are assigned.\n        self._finish_add(0, 0)\n        self.isohybrid_mbr = isohybrid_mbr\n")], 'follows any more')
+M('query-twin-stops-at-first-other-name', 'fault', ['C08', 'C13', 'C14'], ['SA-SIB.query_twin'],
+  [(DR, "                if rr_child.rock_ridge is not None and rr_child.rock_ridge.name() == rr_name and not rr_child.rock_ridge.relocated_record():\n                    raise pycdlibexception.PyCdlibInvalidInput('Failed adding duplicate Rock Ridge name to parent')\n", "                other_rr = rr_child.rock_ridge\n                if other_rr is None or other_rr.name() != rr_name:\n                    break\n                if not other_rr.relocated_record():\n                    raise pycdlibexception.PyCdlibInvalidInput('Failed adding duplicate Rock Ridge name to parent')\n")], 'before it has seen every entry')
+M('continuation-flag-true-for-first-part', 'fault', ['C13'], ['SA-DUPGUARD.bypass'],
+  [(PY, "                                                                 rr_name=rr_name,\n                                                                 continuation=offset > 0)", "                                                                 rr_name=rr_name,\n                                                                 continuation=thislen < length)")], 'cannot tie')
+M('standalone-entries-dropped-from-linking', 'fault', ['C15', 'C11', 'C07', 'C02'], ['SA-SIB.eltorito_entries'],
+  [(PY, "            for entry in sec.section_entries:\n                entries_to_assign.append(entry)\n        for entry in self.eltorito_boot_catalog.standalone_entries:\n            entries_to_assign.append(entry)\n", "            entries_to_assign.extend(sec.section_entries)\n")], 'standalone_entries')
+M('twin-section-entries-collected-with-extend', 'twin', ['C15', 'C11', 'C07', 'C02'], [],
+  [(PY, "            for entry in sec.section_entries:\n                entries_to_assign.append(entry)\n        for entry in self.eltorito_boot_catalog.standalone_entries:\n            entries_to_assign.append(entry)\n", "            entries_to_assign.extend(sec.section_entries)\n        entries_to_assign.extend(self.eltorito_boot_catalog.standalone_entries)\n")])
+M('pvd-copies-written-at-the-first-pvd', 'fault', ['C17', 'C01', 'C03'], ['SA-COORD.seekwrite'],
+  [(PY, "            self._seek_to_extent(pvd.extent_location())\n            rec = pvd.record(now)\n            self._cdfp.write(rec)\n", "            self._seek_to_extent(self.pvd.extent_location())\n            self._cdfp.write(pvd.record(now))\n")], 'lands on the')
+M('basename-sanitised-case-insensitively-before-upper', 'fault', ['C18'], ['SA-STR'],
+  [(UT, "    valid_base = basename.upper()[:maxlen]\n", "    valid_base = re.sub('[^A-Z0-9_]{1}', r'_', basename, flags=re.IGNORECASE).upper()[:maxlen]\n    return valid_base\n")], 'non-ASCII')
+M('tool-udf-link-guarded-by-joliet-switch', 'fault', ['C20'], ['SA-SIB.tool_views'],
+  [(GEN, "                    if udf_path is not None and not hide_udf:\n", "                    if udf_path is not None and not hide_joliet:\n")], 'another view')
+
+
 def applicable(m, sources):
     for rel, old, new in m['edits']:
         src = sources.get(rel)
